@@ -2,12 +2,17 @@
    I and J are finite tables keyed by (phase, a, b), math.log is a rational stand-in
    (x - c) / d on x > 0.  Executable definitions only. *)
 From V Require Import Common.Num C07.Model C07.Gen_FreeEnergy C07.Gen_InitEnergies C07.Gen_MixtureModels C07.Gen_InitData
-     C07.Gen_Rewire C07.Rewire C07.Gen_Packages C07.Packages.
+     C07.Gen_Rewire C07.Rewire C07.Gen_Packages C07.Packages C07.Gen_PhaseHandle.
 Open Scope Q_scope.
+
+(* the per-phase model a label selects (generated dispatch of PhaseTPHandle: H, S; of PhaseTHandle: Cn); the cases only
+   use the five labels, for which the dispatch is defined (an undefined one would be an AttributeError in the harness) *)
+Definition tpph (l : label) : phase := match PhaseTPHandle_dispatch l with Some p => p | None => Ps end.
+Definition tph (l : label) : phase := match PhaseTHandle_dispatch l with Some p => p | None => Ps end.
 
 Definition QOps (lnc lnd : Q) : Ops Q :=
   mkOps Q Qplus Qminus Qmult Qdiv Qopp (fun x => x)
-        (fun x => Qeq_bool x 0) (fun x => negb (Qle_bool x 0)) (fun x => (x - lnc) / lnd).
+        (fun x => Qeq_bool x 0) (fun x => negb (Qle_bool x 0)) (fun x y => negb (Qle_bool y x)) (fun x => (x - lnc) / lnd).
 
 (* integral tables of one chemical's fake heat-capacity handles *)
 Definition tab := list (phase * Q * Q * Q).
@@ -246,6 +251,32 @@ Definition hsame (c : nat) (s s' : hstate) : bool :=
   | Some a, Some b => Nat.eqb (w_ver _ _ _ a) (w_ver _ _ _ b)
   | _, _ => false
   end.
+
+(* pickle round trip of the chemicals [ids] of a package: each gets a copy (new handle objects with the same content, the
+   same functor objects as pickled -- also their version) appended to the store, the first at position n0.  A store state
+   captured earlier may be shorter than n0: it is padded so that the positions agree *)
+Definition hload (n0 : nat) (ids : list nat) (s : hstate) : hstate :=
+  match snd s with
+  | [] => s
+  | d :: _ =>
+      fold_left (fun (acc : hstate) (id : nat) =>
+                   match nth_error (snd s) id with
+                   | Some c =>
+                       let h := fst acc in let k := length h in
+                       (h ++ [hget qcc d0cc h (c_cn _ _ _ c)],
+                        snd acc ++ [mkC qcc (option Q) qsc (c_kind _ _ _ c) (c_pr _ _ _ c) (c_sc _ _ _ c) (c_hv _ _ _ c) k
+                                        (if Nat.eqb (w_cn _ _ _ c) (c_cn _ _ _ c) then k else w_cn _ _ _ c)
+                                        (w_in _ _ _ c) (w_narrow _ _ _ c) (w_ver _ _ _ c)])
+                   | None => acc
+                   end)
+                ids (fst s, snd s ++ repeat d (n0 - length (snd s)))
+  end.
+(* what unpickle_chemical does in addition when it rebuilds: reset_free_energies of each loaded chemical *)
+Definition hrebuild (n0 k : nat) (s : hstate) : hstate :=
+  fold_left (fun acc i => hrun1 (OReset _ _ _ i) acc) (seq n0 k) s.
+Fixpoint index_of (c : nat) (ids : list nat) : nat :=
+  match ids with [] => 0 | x :: t => if Nat.eqb x c then 0 else S (index_of c t) end.
+Definition hren (n0 : nat) (ids : list nat) (c : nat) : nat := n0 + index_of c ids.
 
 Definition entry_state (cur : hstate) (e : nat * option hstate) : hstate :=
   match snd e with None => cur | Some s => s end.
